@@ -856,9 +856,18 @@ func childMain(run *ev.Run, spec string, layouts []*layout) {
 	var k, n int
 	var deadline int64
 	fmt.Sscanf(spec, "%d/%d/%d", &k, &n, &deadline)
+	t0 := time.Now()
+	dbg := func(what string) {
+		if os.Getenv("VERIF_C10_DEBUG") != "" {
+			fmt.Fprintf(os.Stderr, "child %d: %s at %.2fs\n", k, what, time.Since(t0).Seconds())
+		}
+	}
 	w := newWorker(k, layouts)
+	dbg("worker ready")
 	full := []*dataset{w.makeDataset(layouts[0], layouts[0].Rows), w.makeDataset(layouts[1], layouts[1].Rows)}
+	dbg("datasets ready")
 	_, tasks := buildTasks(run)
+	dbg("tasks ready")
 	var mine []int
 	for i := range tasks {
 		if i%n == k {
@@ -879,6 +888,7 @@ func childMain(run *ev.Run, spec string, layouts []*layout) {
 			tvs[ix[j]] = tv
 		}
 	}
+	dbg("truth vectors ready")
 	out := bufio.NewWriter(os.Stdout)
 	enc := json.NewEncoder(out)
 	for _, i := range mine {
@@ -889,6 +899,7 @@ func childMain(run *ev.Run, spec string, layouts []*layout) {
 		enc.Encode(result{i, o})
 	}
 	out.Flush()
+	dbg("cases done")
 	w.arcdb.Close()
 	w.oracle.Close()
 	os.Exit(0)
@@ -984,6 +995,9 @@ func main() {
 					continue
 				}
 				results[r.I] = r.O
+			}
+			if os.Getenv("VERIF_C10_DEBUG") != "" {
+				defer func() { os.Stderr.Write(stderr.Bytes()) }()
 			}
 			if err := cmd.Wait(); err != nil {
 				childErr.Store(fmt.Sprintf("worker process failed: %v %s", err, stderr.String()))
